@@ -51,10 +51,15 @@ func NewStats() *Stats {
 	return &Stats{Faults: map[string]int64{}, Probes: map[string]int64{}, Distinct: map[uint64]bool{}, States: map[uint64]bool{}, Known: map[string]int64{}}
 }
 
-func (s *Stats) Fault(kind string)    { s.Faults[kind]++ }
-func (s *Stats) Probe(name string)    { s.Probes[name]++ }
+func (s *Stats) Fault(kind string) { s.Faults[kind]++ }
+
+// SimSpanHook, when set (by the node package), returns and resets the simulated protocol time in ms
+// covered since its last call.
+var SimSpanHook func() int64
+
+func (s *Stats) Probe(name string)        { s.Probes[name]++ }
 func (s *Stats) ProbeN(n string, k int64) { s.Probes[n] += k }
-func (s *Stats) Nontrivial(key uint64) { s.Distinct[key] = true }
+func (s *Stats) Nontrivial(key uint64)    { s.Distinct[key] = true }
 func (s *Stats) State(key uint64) {
 	if len(s.States) < 2000000 {
 		s.States[key] = true
